@@ -47,7 +47,12 @@ fn first_error_cases(rng: &mut Rng, tier: Tier, out: &mut Vec<Case>) {
     spec.vars.push(("imin".into(), Value::Int(i64::MIN)));
     spec.vars.push(("m".into(), Value::Map(cel_interpreter::objects::Map { map: std::sync::Arc::new(std::collections::HashMap::new()) })));
     let pool: Vec<&str> = FAILING.iter().chain(FINE.iter()).copied().collect();
-    let shapes: [&dyn Fn(&str, &str, &str) -> String; 14] = [
+    let shapes: [&dyn Fn(&str, &str, &str) -> String; 19] = [
+        &|a, b, _| format!("({a}) > 0 || ({b}) == 2"),
+        &|a, b, _| format!("({a}) > 0 && ({b}) == 2"),
+        &|a, b, c| format!("({a}) == 1 || ({b}) == 1 || ({c}) == 1"),
+        &|a, b, _| format!("[1, 2].all(x, ({a}) == x || ({b}) == x)"),
+        &|a, b, _| format!("({a}) == ({b})"),
         &|a, b, _| format!("{a} + {b}"),
         &|a, b, _| format!("{a} == {b}"),
         &|a, b, _| format!("{a} < {b}"),
@@ -124,6 +129,17 @@ fn first_error_cases(rng: &mut Rng, tier: Tier, out: &mut Vec<Case>) {
         }
     }
     // int / uint against doubles with a fraction, of either sign, next to the integer
+    // ints against uints across the sign / 2^63 boundary: equal only when they denote the same number
+    for i in ["-1", "-2", "imin", "big", "0", "1", "-9223372036854775807"] {
+        for u in ["18446744073709551615u", "18446744073709551614u", "9223372036854775808u", "9223372036854775807u", "0u", "1u", "9223372036854775809u"] {
+            for src in [format!("{i} == {u}"), format!("{u} != {i}"), format!("{i} in [{u}]"), format!("[{i}] == [{u}]"), format!("{{'k': {i}}} == {{'k': {u}}}"), format!("[{u}].exists(x, x == {i})"), format!("{i} < {u}"), format!("{u} <= {i}")] {
+                if let Some(mut case) = eval_case_from_src(&spec, &src) {
+                    case.tags = vec!["cross-numeric", "int-uint"];
+                    out.push(case);
+                }
+            }
+        }
+    }
     let ints = ["-2", "-1", "0", "1", "2", "0u", "1u", "2u", "imin", "big"];
     let dbls = ["-2.5", "-1.5", "-1.0", "-0.5", "-0.0", "0.0", "0.5", "1.0", "1.5", "2.5", "-9223372036854775808.5", "9223372036854775807.5"];
     for i in ints {
